@@ -2,7 +2,9 @@ package main
 
 import (
 	"errors"
+	"github.com/acquirecloud/golibs/container/iterable"
 	"math/rand"
+	"runtime"
 	"strings"
 	"sync"
 	"sync/atomic"
@@ -18,6 +20,144 @@ import (
 
 func init() { drivers["lru-retention"] = driveLruRetention }
 
+// gcProbe: reachability as the garbage collector sees it.  Keys and values are pointers with finalizers; after the
+// entries left the container (and nothing else refers to them) a few collections must finalize every one of them -
+// whatever private structure (pool, free list, index) the implementation keeps.  Emits one summary line.
+type gcKey struct { // (32 bytes: objects below 16 bytes share allocation blocks, and a block lives as long as any object in it)
+	id  int
+	pad [3]int
+}
+type gcVal struct{ id [4]int }
+
+// gcWait collects until both counters reached want, or nothing was finalized for three seconds (finalizers run on a
+// goroutine of their own and may lag behind on a loaded host; a real leak shows no progress at all), at most 30 s.
+func gcWait(want int, a, b *int64) {
+	start, lastProgress := time.Now(), time.Now()
+	seen := int64(-1)
+	for time.Since(start) < 30*time.Second {
+		x, y := atomic.LoadInt64(a), atomic.LoadInt64(b)
+		if x >= int64(want) && y >= int64(want) {
+			return
+		}
+		if x >= int64(want)-2 && y >= int64(want)-2 && time.Since(lastProgress) > 300*time.Millisecond {
+			return // within the constant the contract allows
+		}
+		if x+y != seen {
+			seen, lastProgress = x+y, time.Now()
+		} else if time.Since(lastProgress) > 3*time.Second {
+			return
+		}
+		runtime.GC()
+		time.Sleep(5 * time.Millisecond)
+	}
+}
+
+func gcProbeMap(tw *TraceWriter, rnd *rand.Rand) {
+	var keysDone, valsDone int64
+	m := iterable.NewMap[*gcKey, *gcVal]()
+	n := 1500 + rnd.Intn(1000)
+	keep := 10
+	ks := make([]*gcKey, n)
+	for i := range ks {
+		k, v := &gcKey{id: i}, &gcVal{[4]int{i}}
+		runtime.SetFinalizer(k, func(*gcKey) { atomic.AddInt64(&keysDone, 1) })
+		runtime.SetFinalizer(v, func(*gcVal) { atomic.AddInt64(&valsDone, 1) })
+		ks[i] = k
+		m.Add(k, v)
+	}
+	// an iterator visits part of the map and is closed again
+	it := m.Iterator()
+	for j := 0; j < n/3; j++ {
+		it.Next()
+	}
+	for _, i := range rnd.Perm(n) {
+		if i < keep {
+			continue
+		}
+		m.Remove(ks[i])
+		ks[i] = nil
+	}
+	it.Close()
+	gcWait(n-keep, &keysDone, &valsDone)
+	tw.Emit(map[string]any{"op": "GcProbe", "what": "map", "removed": n - keep, "keys_collected": atomic.LoadInt64(&keysDone),
+		"vals_collected": atomic.LoadInt64(&valsDone), "len": m.Len(), "live": keep})
+	runtime.KeepAlive(ks)
+	runtime.KeepAlive(m)
+}
+
+// gcProbeMapCycles: an iterator is parked on removed entries while another key is added and removed thousands of
+// times; once the iterator is closed nothing of all that may stay reachable.
+func gcProbeMapCycles(tw *TraceWriter, rnd *rand.Rand) {
+	var keysDone, valsDone int64
+	mk := func(i int) (*gcKey, *gcVal) {
+		k, v := &gcKey{id: i}, &gcVal{[4]int{i}}
+		runtime.SetFinalizer(k, func(*gcKey) { atomic.AddInt64(&keysDone, 1) })
+		runtime.SetFinalizer(v, func(*gcVal) { atomic.AddInt64(&valsDone, 1) })
+		return k, v
+	}
+	m := iterable.NewMap[*gcKey, *gcVal]()
+	removed := 0
+	func() {
+		a, av := mk(-1)
+		b, bv := mk(-2)
+		m.Add(a, av)
+		m.Add(b, bv)
+		it := m.Iterator()
+		if rnd.Intn(2) == 0 {
+			it.Next()
+		}
+		m.Remove(a)
+		m.Remove(b)
+		removed += 2
+		n := 4200 + rnd.Intn(1500)
+		for i := 0; i < n; i++ {
+			x, xv := mk(i)
+			m.Add(x, xv)
+			m.Remove(x)
+			removed++
+		}
+		it.Close()
+	}()
+	y, yv := mk(-3)
+	m.Add(y, yv)
+	gcWait(removed, &keysDone, &valsDone)
+	tw.Emit(map[string]any{"op": "GcProbe", "what": "map-cycles", "removed": removed, "keys_collected": atomic.LoadInt64(&keysDone),
+		"vals_collected": atomic.LoadInt64(&valsDone), "len": m.Len(), "live": 1})
+	runtime.KeepAlive(m)
+	runtime.KeepAlive(y)
+}
+
+func gcProbeLru(tw *TraceWriter, rnd *rand.Rand) {
+	var keysDone, valsDone int64
+	capacity := 16
+	c, err := lru.NewCache[*gcKey, *gcVal](capacity, func(k *gcKey) (*gcVal, error) {
+		v := &gcVal{[4]int{k.id}}
+		runtime.SetFinalizer(v, func(*gcVal) { atomic.AddInt64(&valsDone, 1) })
+		return v, nil
+	}, func(k *gcKey, v *gcVal) {})
+	if err != nil {
+		return
+	}
+	n := 1500 + rnd.Intn(1000)
+	for i := 0; i < n; i++ {
+		k := &gcKey{id: i}
+		runtime.SetFinalizer(k, func(*gcKey) { atomic.AddInt64(&keysDone, 1) })
+		c.GetOrCreate(k)
+		if i%7 == 0 {
+			c.Remove(k)
+		}
+		if i%500 == 499 {
+			c.Clear()
+		}
+	}
+	_, _, _, length, _ := lru.VerifListStats(c.ECache)
+	want := n - length
+	gcWait(want, &keysDone, &valsDone)
+	tw.Emit(map[string]any{"op": "GcProbe", "what": "lru", "removed": want, "keys_collected": atomic.LoadInt64(&keysDone),
+		"vals_collected": atomic.LoadInt64(&valsDone), "len": length, "live": length})
+	runtime.KeepAlive(c)
+}
+
 func driveLruRetention(opt *Options) error {
 	tw, err := NewTraceWriter(opt.Out)
 	if err != nil {
@@ -25,6 +165,9 @@ func driveLruRetention(opt *Options) error {
 	}
 	defer tw.Close()
 	rnd := rand.New(rand.NewSource(opt.Seed))
+	gcProbeMap(tw, rnd)
+	gcProbeMapCycles(tw, rnd)
+	gcProbeLru(tw, rnd)
 	caps := []int{1, 2, 3, 8, 64}
 	for ci, cp := range caps {
 		failNext := false
